@@ -233,7 +233,7 @@ end CV.Props.C18
 namespace CV.Props.C18
 
 /-- (facts, regenerated from the source on every run) **The source text the model transcribes is the text of the
-    current source**: the bodies (comments and layout removed) of the 26 functions the model behind C18 was written from and
+    current source**: the bodies (comments and layout removed) of the 27 functions the model behind C18 was written from and
     validated against.  Any edit of one of them breaks this theorem at build time; the check then searches with the
     property's own oracles for a failing input, and reports `no-failing-input-found` if it finds none: the model then
     has to be re-validated against the new text (and this block regenerated). -/
@@ -262,6 +262,7 @@ theorem source_decision_logic : CV.Facts.logicC18 = [
   "internal..processStructTag: { tags := strings.Split(tagStr, \",\") name := tags[0] omitempty := len(tags) > 1 && tags[1] == \"omitempty\" return name, omitempty }", 
   "internal..rename: { rv := reflect.ValueOf(v) if rv.Type().Kind() != reflect.Struct { return nil } renameMap := createRenameMap(rv) m := make(map[string]interface{}) for key, value := range fields { renamedFieldName := renameMap[key] if renamedFieldName != \"\" { m[renamedFieldName] = value } else { m[key] = value } } return m }", 
   "internal..renameMapKeys: { rv, rt := getElemValueAndType(v) if rt.Kind() != reflect.Struct { return m } renamed := rename(m, rv.Interface()) for i := 0; i < rv.NumField(); i++ { sf := rv.Type().Field(i) if ft := getElemType(sf.Type); sf.Anonymous && ft.Kind() == reflect.Struct { if _, isMap := renamed[sf.Name].(map[string]interface{}); !isMap { renamed = renameMapKeys(renamed, reflect.New(ft).Interface()) continue } } key := sf.Name if jsonTagStr, found := sf.Tag.Lookup(\"json\"); found { if name, _ := processStructTag(jsonTagStr); name != \"\" { key = name } } if fv, found := renamed[key]; found { renamed[key] = renameValue(fv, sf.Type) } } return renamed }", 
+  "internal..renameValue: { t = getElemType(t) switch t.Kind() { case reflect.Struct: if m, isMap := v.(map[string]interface{}); isMap { return renameMapKeys(m, reflect.New(t).Interface()) } case reflect.Slice, reflect.Array: if s, isSlice := v.([]interface{}); isSlice { elems := make([]interface{}, len(s)) for i, elem := range s { elems[i] = renameValue(elem, t.Elem()) } return elems } case reflect.Map: if m, isMap := v.(map[string]interface{}); isMap { values := make(map[string]interface{}, len(m)) for k, value := range m { values[k] = renameValue(value, t.Elem()) } return values } } return v }", 
   "util..CopyMap: { mapCopy := make(map[string]interface{}) for k, v := range m { mapValue, ok := v.(map[string]interface{}) if ok { mapCopy[k] = CopyMap(mapValue) } else { mapCopy[k] = v } } return mapCopy }", 
   "util..MapKeys: { keys := make([]string, 0, len(m)) for key, value := range m { added := false if includeSubKeys { subMap, isMap := value.(map[string]interface{}) if isMap { subFields := MapKeys(subMap, false, includeSubKeys) for _, subKey := range subFields { keys = append(keys, key+\".\"+subKey) } added = true } } if !added { keys = append(keys, key) } } if sorted { sort.Slice(keys, func(i, j int) bool { return keys[i] < keys[j] }) } return keys }"] := by rfl
 
